@@ -1,7 +1,7 @@
 """Thread-ID manager rules: C15 (HB.ORDER / HB.SYNC / HB.LIFE), C05 (ID.CLAIM / ID.WHO /
 ID.RANGE / ID.STABLE), C14 (ID.FREE / ID.PROBE).   DESIGN.md section 4."""
 from facts import AnalysisBroken
-from pathsim import S, C, show, symbols, is_const, is_atomic_record
+from pathsim import S, C, show, symbols, is_const, is_atomic_record, cond_truth
 from locks import Sink, has_acquire, has_release, is_write
 
 NS = 'dbgroup::thread::'
@@ -183,23 +183,15 @@ class IdRules:
                     good = last['success'] and is_const(last['expected']) and last['expected'][1] == 0 and is_const(last['desired']) and last['desired'][1] == 1
                     why = 'CAS false->true succeeded'
                 else:
-                    t = None
-                    for c, o, _ in p.conds:
-                        if last['result'] in symbols(c):
-                            cc = c[1] if c[0] == 'ne0' else c
-                            if cc == last['result']:
-                                t = o
+                    t = cond_truth(p.conds, last['result'])
                     good = is_const(last['value']) and last['value'][1] == 1 and t is False
                     why = 'old value of the %s tested false on this path' % last['op']
             sink.emit('C05.CLAIM', 'ok' if good else 'violated', 'SetID(%s) only after a successful test-and-set of that flag' % self.norm(st['args'][0]), '%s:%s' % (f['file'], st['line']),
                       why if good else 'the ID passed to SetID was not claimed by an RMW whose old value was found false (last flag write: %s)' % (
                           '%s on flag %s' % (last['op'], show(last['obj'][2])[:60]) if last else 'none'))
             # stability: reached only when the thread has no ID yet
-            has = None
-            for c, o, _ in p.conds:
-                if 'HasID' in show(c):
-                    has = (o, c)
-            good = has is not None and ((has[1][0] == 'not' and has[0] is True) or (has[1][0] != 'not' and has[0] is False))
+            hasid = [e['result'] for e in p.events if e['kind'] == 'call' and e.get('name') == 'HasID' and e['seq'] < st['seq']]
+            good = bool(hasid) and cond_truth(p.conds, hasid[-1]) is False
             sink.emit('C05.STABLE', 'ok' if good else 'violated', 'SetID only when the thread has no ID yet', '%s:%s' % (f['file'], st['line']),
                       'guarded by !HasID()' if good else 'SetID reachable although the thread already has an ID')
         if n_claim == 0:
